@@ -1,11 +1,16 @@
 (* C11 — Commits after any re-open get timestamps above every stored version.
    Statements only; proofs are `exact` of lemmas in B/ReopenTsProofs.v.
-   Covered here: clean close + Open, DropAll, and every label of a running normal-mode DB.
-   Not covered here: re-open after a crash (C08), after Load (C24), after StreamWriter.Flush (C26).
+   Covered here: clean close + Open, DropAll, every label of a running normal-mode DB, and Open
+   of a directory that was not closed (crash): the replay of the memtable WALs, whose entries are
+   in no particular version order (managed-mode commits, DB.Load, value-log GC rewrites,
+   BanNamespace), as memTable.replayFunction folds it (proofs in B/WalOpenProofs.v).
+   Not covered here: which WAL records survive a crash (C08-C10: the delivered entry sequence is
+   the input here), the oracle during Load (C24), re-open after StreamWriter.Flush (C26).
    Managed mode: the commit timestamp is the caller's (Txn.CommitAt); the property is the
    caller's obligation there and the invariant is false (C11_managed_counterexample). *)
-From Verif Require Import Bytes Keys Consts Spec Lsm Compact Iter Sys SysReopen.
-From Verif Require ReopenTsProofs.
+From Verif Require Import Bytes Keys Consts Spec Lsm Compact Iter Sys SysReopen WalOpen.
+From Verif Require ReopenTsProofs WalOpenProofs.
+From Coq Require Import Permutation.
 Open Scope N_scope.
 
 (* Open: nextTxnTs = MaxVersion + 1 is above every version stored in memtables and tables *)
@@ -56,3 +61,59 @@ Theorem C11_managed_counterexample :
   bad = None /\ exists e, In e (ReopenTsProofs.db_entries (s_db (x_sys xs))) /\ s_next (x_sys xs) <= e_ver e.
 Proof. exact ReopenTsProofs.managed_commit_not_above. Qed.
 Print Assumptions C11_managed_counterexample.
+
+(* ---- re-open after a crash: the WAL replay ---- *)
+(* memTable.replayFunction's running maximum, folded over the entries of a WAL in file order, is
+   the maximum of the replayed versions for EVERY order of the WAL: it bounds each replayed
+   version, and it is 0 or the version of a replayed entry *)
+Theorem C11_wal_replay_max_is_maximum : forall wal,
+  (forall e, In e wal -> e_ver e <= replay_max wal) /\
+  (replay_max wal = 0 \/ exists e, In e wal /\ e_ver e = replay_max wal).
+Proof. exact WalOpenProofs.replay_max_spec. Qed.
+Print Assumptions C11_wal_replay_max_is_maximum.
+Example C11_wal_replay_max_ex :
+  let e k v := mkE [k] v 0 0 0 [] in
+  replay_max [e 1 3; e 2 7; e 1 2; e 3 1] = 7 /\ replay_max [e 2 2; e 1 1] = 2 /\ replay_max [] = 0.
+Proof. vm_compute. auto. Qed.
+
+(* ... hence it does not depend on the order in which the WAL holds the entries *)
+Theorem C11_wal_replay_max_order_irrelevant : forall wal wal',
+  Permutation wal wal' -> replay_max wal = replay_max wal'.
+Proof. exact WalOpenProofs.replay_max_perm. Qed.
+Print Assumptions C11_wal_replay_max_order_irrelevant.
+
+(* Open of a crashed directory (any WALs in any order, any tables): nextTxnTs, computed as the
+   code computes it (replayFunction per WAL, table MaxVersion, DB.MaxVersion's update closure,
+   + 1), is above every version in the recovered memtables and the tables *)
+Theorem C11_crash_open_next_ts_above_versions : forall wals levels e,
+  In e (ReopenTsProofs.db_entries (crash_open_db wals levels)) -> e_ver e < crash_open_next wals levels.
+Proof. exact WalOpenProofs.crash_open_next_above. Qed.
+Print Assumptions C11_crash_open_next_ts_above_versions.
+
+(* ... and is exactly the largest stored version + 1 (max_version: the abstract maximum over the
+   merged view that the clean-close theorems use) *)
+Theorem C11_crash_open_next_ts_is_max_version_plus_one : forall wals levels,
+  crash_open_next wals levels = max_version (crash_open_db wals levels) + 1.
+Proof. exact WalOpenProofs.crash_open_next_eq. Qed.
+Print Assumptions C11_crash_open_next_ts_is_max_version_plus_one.
+
+(* the recovered normal-mode system satisfies the invariant, so by C11_invariant_step every state
+   a history reaches after the recovery has nextTxnTs above every stored version (and by
+   C11_commit_ts_above_stored every accepted commit gets such a timestamp) *)
+Theorem C11_crash_open_invariant : forall detect nkeep now wals levels,
+  ReopenTsProofs.c11_inv (crash_open_sys false detect nkeep now wals levels).
+Proof. exact WalOpenProofs.crash_open_c11_inv. Qed.
+Print Assumptions C11_crash_open_invariant.
+
+Theorem C11_next_ts_above_versions_after_crash : forall detect nkeep now wals levels ops,
+  let s := x_sys (snd (xexec (mkX (crash_open_sys false detect nkeep now wals levels) false) ops 0)) in
+  forall e, In e (ReopenTsProofs.db_entries (s_db s)) -> e_ver e < s_next s.
+Proof. exact WalOpenProofs.crash_open_then_history. Qed.
+Print Assumptions C11_next_ts_above_versions_after_crash.
+Example C11_crash_open_ex :
+  let e k v := mkE [k] v 0 0 0 [] in
+  let wals := [[e 1 2; e 2 9; e 3 1]; []; [e 1 4; e 1 3]] in
+  let levels := [[mkT 7 [e 2 5]; mkT 4 [e 1 12; e 1 1]]; []] in
+  crash_open_next wals levels = 13 /\ length (l_imm (crash_open_db wals levels)) = 2%nat /\
+  crash_open_next [[e 1 2; e 2 9; e 3 1]] [[]] = 10.
+Proof. vm_compute. auto. Qed.
